@@ -20,7 +20,9 @@ import (
 )
 
 type tcase struct {
-	E *mlang.Node `json:"e"`
+	E    *mlang.Node `json:"e"`
+	Fe   *mlang.Node `json:"fe"`   // the model's folded tree (open family)
+	Open bool        `json:"open"` // contains $1: the program matches /(\d+)/ and the line is "4"
 }
 
 type finder struct{ rhs ast.Node }
@@ -38,6 +40,7 @@ type outcome struct {
 	I    int64   `json:"i"`
 	F    float64 `json:"f"`
 	Msg  string  `json:"msg,omitempty"`
+	Dump string  `json:"dump,omitempty"` // canonical dump of the folded right-hand side
 }
 
 func foldReal(src string) (o outcome) {
@@ -62,7 +65,7 @@ func foldReal(src string) (o outcome) {
 	case *ast.FloatLit:
 		return outcome{Kind: "float", F: l.F}
 	}
-	return outcome{Kind: "other", Msg: fmt.Sprintf("%T", f.rhs)}
+	return outcome{Kind: "other", Msg: fmt.Sprintf("%T", f.rhs), Dump: mlang.Dump(f.rhs)}
 }
 
 type value struct {
@@ -75,14 +78,14 @@ type value struct {
 	F        float64 `json:"f"`
 }
 
-func runReal(name, src string, optimise bool) (v value) {
+func runReal(name, src string, optimise bool, line string) (v value) {
 	cc := mlang.Compile(name, src, optimise)
 	if cc.Obj == nil || cc.Errors != "" || cc.Panic != "" {
 		v.Errors = cc.Errors + cc.Panic
 		return
 	}
 	v.Accepted = true
-	_, res := mlang.Run(name, cc.Obj, []mlang.Line{{Toks: [][]string{{"x"}}, File: []string{"f"}}}, mlang.RunOpts{})
+	_, res := mlang.Run(name, cc.Obj, []mlang.Line{{Toks: [][]string{{line}}, File: []string{"f"}}}, mlang.RunOpts{})
 	v.RtErr = res[0].Err
 	for _, m := range res[0].Metrics {
 		if m.Name == "g" {
@@ -111,12 +114,21 @@ func main() {
 				vh.Fatal("render: %v", err)
 			}
 			src := "gauge g\n/x/ {\n  g = " + ex + "\n}\n"
-			out[mode] = map[string]any{
+			line := "x"
+			if c.Open {
+				src = "gauge g\n/(\\d+)/ {\n  g = " + ex + "\n}\n"
+				line = "4"
+			}
+			rec := map[string]any{
 				"expr": ex,
 				"fold": foldReal(src),
-				"on":   runReal(fmt.Sprintf("f%d%son.mtail", n, mode), src, true),
-				"off":  runReal(fmt.Sprintf("f%d%soff.mtail", n, mode), src, false),
+				"on":   runReal(fmt.Sprintf("f%d%son.mtail", n, mode), src, true, line),
+				"off":  runReal(fmt.Sprintf("f%d%soff.mtail", n, mode), src, false, line),
 			}
+			if c.Fe != nil {
+				rec["modeldump"] = mlang.DumpModel(c.Fe)
+			}
+			out[mode] = rec
 		}
 		vh.Out(out)
 		return nil
